@@ -123,7 +123,7 @@ pub fn decode_op(r: &mut Rd) -> Op {
         20 | 21 => Op::UpdateIndex { by: if r.u8() % 6 == 0 { 1 + r.u8() % 3 } else { 0 } },
         22 => {
             let b = r.u8();
-            if b % 8 == 7 { Op::Migrate { c: (b / 8) % 5 } } else { Op::CheckSlashing { u: b % 6 } }
+            if b % 8 == 7 { Op::Migrate { c: (b / 8) % 5 } } else if b % 8 == 6 { Op::Reconfig { c: (b / 8) % 8 } } else { Op::CheckSlashing { u: b % 6 } }
         }
         23 | 24 | 25 | 26 => Op::Advance { clock: clock(r) },
         27 | 28 => {
